@@ -23,6 +23,17 @@ func pushSemantics(paths []bpath, stack string) stackPush {
 		iGrow := p.evIndex("set", 0, func(s string) bool {
 			return s == "p."+stack+"=append(p."+stack+",nil)" || s == "p."+stack+"=p."+stack+"[:len(p."+stack+")+1]"
 		})
+		appended := ""
+		if iGrow < 0 {
+			// growth and installation in one step: append(stack, m)
+			pre := "p." + stack + "=append(p." + stack + ","
+			iGrow = p.evIndex("set", 0, func(s string) bool {
+				return strings.HasPrefix(s, pre) && strings.HasSuffix(s, ")") && len(splitTop(s[len(pre):len(s)-1], ",")) == 1 && !strings.HasSuffix(s, "...)")
+			})
+			if iGrow >= 0 {
+				appended = p[iGrow].Text[len(pre) : len(p[iGrow].Text)-1]
+			}
+		}
 		if iGrow < 0 {
 			res.Grow = false
 			continue
@@ -34,7 +45,7 @@ func pushSemantics(paths []bpath, stack string) stackPush {
 		}
 		// the top slot after the growth
 		fresh := ""
-		installed := ""
+		installed := appended
 		for i := iGrow + 1; i < len(p); i++ {
 			if p[i].Kind == "set" && strings.HasPrefix(p[i].Text, top+"=") {
 				installed = strings.TrimPrefix(p[i].Text, top+"=")
